@@ -181,6 +181,9 @@ T_RANGE = [
     'COUNTIF({R},">1")', 'MAX({R})-MIN({R})', 'VLOOKUP({a},{R},1,FALSE)',
     'MATCH({a},{R},0)', 'SUMPRODUCT({R},{R})', 'IF(SUM({R})>{a},{a},{b})',
     'COUNT({R})+COUNTA({R})', 'AVERAGE({R})+{a}',
+    'COUNTIF({R},{a})', 'COUNTIF({R},TRUE)', 'COUNTIF({R},"true")',
+    'COUNTIF({R},1)', 'COUNTIF({R},"1")', 'COUNTIF({R},"<>0")',
+    'COUNTIF({R},"abc")', 'COUNTIF({R},"ABC")',
 ]
 
 
